@@ -14,6 +14,7 @@ import (
 	"github.com/cedar-policy/cedar-go/types"
 	"github.com/cedar-policy/cedar-go/x/exp/ast"
 	"github.com/cedar-policy/cedar-go/x/exp/batch"
+	"github.com/cedar-policy/cedar-go/x/exp/schema"
 
 	"verifharness/cwf"
 )
@@ -31,6 +32,7 @@ import (
 //	       "policyset_json" input {json}: PolicySet.UnmarshalJSON -> MarshalJSON, MarshalCedar
 //	       "entities"     input {store}: EntityMap built in a rotated insertion order -> MarshalJSON; decode -> re-encode
 //	       "value"        input {v}: value rebuilt from the wire form -> MarshalCedar, MarshalJSON, String
+//	       "schema_text" / "schema_json" input {src: code points of a schema}: decode -> MarshalCedar and MarshalJSON bytes
 func observation(parts ...string) Obj {
 	s := strings.Join(parts, "\x1f")
 	sum := sha256.Sum256([]byte(s))
@@ -178,6 +180,21 @@ func determOnce(what string, in Obj, rep int) (obs J) {
 		}
 		b2, _ := json.Marshal(back)
 		return observation(string(b1), string(b2))
+	case "schema_text", "schema_json":
+		var sc schema.Schema
+		src := []byte(must(cwf.JToStr(in["src"])))
+		var err error
+		if what == "schema_text" {
+			err = sc.UnmarshalCedar(src)
+		} else {
+			err = sc.UnmarshalJSON(src)
+		}
+		if err != nil {
+			return observation("error", err.Error())
+		}
+		txt, err1 := sc.MarshalCedar()
+		js, err2 := sc.MarshalJSON()
+		return observation(string(txt), fmt.Sprint(err1), string(js), fmt.Sprint(err2))
 	case "value":
 		v := must(cwf.JToValue(in["v"]))
 		js, _ := json.Marshal(v)
@@ -209,7 +226,68 @@ func driveDeterm(seed int64, n int, params map[string]string) []Obj {
 		return ext("decimal", strNode(fmt.Sprintf("bad%d", i)))
 	}
 	for i := 0; len(out) < n; i++ {
-		switch i % 8 {
+		switch i % 11 {
+		case 8: // batch authorization: variables inside sets of several elements, nested records, several policies
+			unk := func(name string) J { return Obj{"k": "unknown", "name": name} }
+			ctx := Obj{"k": "rec", "f": Obj{
+				"ss": Obj{"k": "set", "els": []any{unk("x"), cwf.ValueToJ(types.Long(1)), cwf.ValueToJ(types.Long(2)), cwf.ValueToJ(types.String("s"))}},
+				"r":  Obj{"k": "rec", "f": Obj{"n": unk("y"), "m": cwf.ValueToJ(types.Long(int64(i)))}},
+				"e":  cwf.ValueToJ(g.uid()), "n": cwf.ValueToJ(types.Long(2))}}
+			e := g.env()
+			tmpl := cwf.EnvToJ(e).(Obj)
+			tmpl["c"] = ctx
+			if i%2 == 0 {
+				tmpl["r"] = unk("z")
+			}
+			vars := []any{Obj{"key": "x", "values": []any{cwf.ValueToJ(types.Long(1)), cwf.ValueToJ(types.Long(7)), cwf.ValueToJ(types.String("s"))}},
+				Obj{"key": "y", "values": []any{cwf.ValueToJ(types.Long(2)), cwf.ValueToJ(types.Long(3))}}}
+			if i%2 == 0 {
+				vars = append(vars, Obj{"key": "z", "values": []any{cwf.ValueToJ(g.uid()), cwf.ValueToJ(g.uid())}})
+			}
+			ctxAttr := func(a string) ast.IsNode {
+				return ast.NodeTypeAccess{StrOpNode: ast.StrOpNode{Arg: ast.NodeTypeVariable{Name: "context"}, Value: types.String(a)}}
+			}
+			mk := func(body ast.IsNode, eff ast.Effect) *ast.Policy {
+				return &ast.Policy{Effect: eff, Principal: ast.ScopeTypeAll{}, Action: ast.ScopeTypeAll{}, Resource: ast.ScopeTypeAll{},
+					Conditions: []ast.ConditionType{{Condition: ast.ConditionWhen, Body: body}}}
+			}
+			pols := []any{
+				Obj{"id": "c7", "policy": cwf.PolicyToJ(mk(ast.NodeTypeContains{BinaryNode: bin(ctxAttr("ss"), val(types.Long(7)))}, ast.EffectPermit))},
+				Obj{"id": "c1", "policy": cwf.PolicyToJ(mk(ast.NodeTypeContainsAll{BinaryNode: bin(ctxAttr("ss"), val(types.NewSet(types.Long(1), types.Long(2), types.String("s"))))}, ast.EffectPermit))},
+				Obj{"id": "rn", "policy": cwf.PolicyToJ(mk(ast.NodeTypeEquals{BinaryNode: bin(ast.NodeTypeAccess{StrOpNode: ast.StrOpNode{Arg: ctxAttr("r"), Value: "n"}}, ctxAttr("n"))}, ast.EffectForbid))},
+				Obj{"id": "g", "policy": cwf.PolicyToJ(g.policy(2))}}
+			add("batch", Obj{"policies": pols, "template": tmpl, "vars": vars})
+		case 9: // `in` / containsAll over sets whose members fail in different ways: which failure is reported?
+			bad := types.NewSet(types.Long(int64(i)), types.String("a"), types.Boolean(true), types.NewRecord(types.RecordMap{"k": types.Long(1)}))
+			bodies := []ast.IsNode{
+				ast.NodeTypeIn{BinaryNode: bin(ast.NodeTypeVariable{Name: "principal"}, val(bad))},
+				ast.NodeTypeIn{BinaryNode: bin(val(g.uid()), val(types.NewSet(types.String("x"), types.Long(2), g.uid())))},
+				ast.NodeTypeIsIn{NodeTypeIs: ast.NodeTypeIs{Left: ast.NodeTypeVariable{Name: "principal"}, EntityType: "U"}, Entity: val(bad)},
+				ast.NodeTypeGetTag{BinaryNode: bin(ast.NodeTypeVariable{Name: "principal"}, val(types.Long(1)))}}
+			pols, order := []any{}, []any{}
+			for k, b := range bodies {
+				id := fmt.Sprintf("e%d", k)
+				p := &ast.Policy{Effect: ast.EffectPermit, Principal: ast.ScopeTypeAll{}, Action: ast.ScopeTypeAll{}, Resource: ast.ScopeTypeAll{},
+					Conditions: []ast.ConditionType{{Condition: ast.ConditionWhen, Body: b}}}
+				pols = append(pols, Obj{"id": id, "policy": cwf.PolicyToJ(p)})
+				order = append(order, id)
+			}
+			add("authz", Obj{"policies": pols, "order": order, "env": cwf.EnvToJ(g.env())})
+		case 10: // schemas with several declarations of every kind in several namespaces
+			txt := g.schemaText()
+			if i%2 == 0 {
+				add("schema_text", Obj{"src": cwf.StrToJ(txt)})
+			} else {
+				var sc schema.Schema
+				if err := sc.UnmarshalCedar([]byte(txt)); err != nil {
+					panic(harnessError{fmt.Errorf("generated schema does not parse: %v\n%s", err, txt)})
+				}
+				js, err := sc.MarshalJSON()
+				if err != nil {
+					continue
+				}
+				add("schema_json", Obj{"src": cwf.StrToJ(string(js))})
+			}
 		case 0: // a record literal with several failing fields: which failure is reported?
 			var els []ast.RecordElementNode
 			for k := 0; k < 5; k++ {
@@ -293,6 +371,44 @@ func driveDeterm(seed int64, n int, params map[string]string) []Obj {
 		}
 	}
 	return out
+}
+
+// schemaText: a schema (Cedar syntax) with 2-4 declarations of every kind in the empty namespace and two more
+func (g *gen) schemaText() string {
+	var sb strings.Builder
+	decls := func(ns string) {
+		ind := ""
+		if ns != "" {
+			fmt.Fprintf(&sb, "@doc(\"ns %s\")\nnamespace %s {\n", ns, ns)
+			ind = "  "
+		}
+		n := 2 + g.r.Intn(3)
+		for k := 0; k < n; k++ {
+			fmt.Fprintf(&sb, "%stype %sT%d = { a%d: Long, \"odd key %d\"?: Set<String>, b: { c: Bool, d?: ipaddr } };\n", ind, ns, k, k, k)
+		}
+		for k := 0; k < n; k++ {
+			fmt.Fprintf(&sb, "%sentity %sEn%d enum [\"v%d\", \"w\", \"a b\"];\n", ind, ns, k, k)
+		}
+		for k := 0; k < n; k++ {
+			parents := ""
+			if k > 0 {
+				parents = fmt.Sprintf(" in [%sE0]", ns)
+			}
+			fmt.Fprintf(&sb, "%s@id(\"e%d\") @zz(\"1\") @aa(\"2\")\n%sentity %sE%d%s { name: String, n%d?: Long, t: %sT0, z: Set<%sE0>, m: decimal } tags String;\n", ind, k, ind, ns, k, parents, k, ns, ns)
+		}
+		fmt.Fprintf(&sb, "%saction %sgroup0, %sgroup1;\n", ind, ns, ns)
+		for k := 0; k < n; k++ {
+			fmt.Fprintf(&sb, "%saction \"%s act %d\", %sact%d in [%sgroup0, %sgroup1] appliesTo { principal: [%sE0, %sE1], resource: [%sE1, %sEn0], context: { k%d: Long, t: %sT1, o?: String } };\n",
+				ind, ns, k, ns, k, ns, ns, ns, ns, ns, ns, k, ns)
+		}
+		if ns != "" {
+			sb.WriteString("}\n")
+		}
+	}
+	decls("")
+	decls("Alpha")
+	decls("Beta")
+	return sb.String()
 }
 
 var _ = bytes.Equal
